@@ -66,8 +66,8 @@ Definition dcog : cog := (0, []).    (* default for nth *)
 Section WithPyInt.
   (* ORACLE: Python's int(s, 0) on a str (None = ValueError).  Assumed contract, used by c06_keys
      and monitored by the correspondence stream `pyint0`:
-       int("0b" + ds, 0) = value of ds in radix 2   for every non-empty string ds of binary digits,
-       int("0x" + hs, 0) = value of hs in radix 16  for every non-empty string hs of hex digits.  *)
+       int("0b" + ds, 0) = int("0B" + ds, 0) = value of ds in radix 2   for every non-empty string ds of binary digits,
+       int("0x" + hs, 0) = int("0X" + hs, 0) = value of hs in radix 16  for every non-empty string hs of hex digits. *)
   Variable pyint0 : list ascii -> option N.
 
   (* _outcome_to_int:
@@ -390,10 +390,10 @@ Definition digit_ok (radix : N) (c : ascii) : bool :=
 Definition radix_value (radix : N) (ds : list ascii) : N :=
   fold_left (fun acc c => (acc * radix + match digit_val c with Some v => v | None => 0 end)%N) ds 0%N.
 Definition pyint0_contract (pyint0 : list ascii -> option N) : Prop :=
-  (forall ds, ds <> [] -> forallb (digit_ok 2) ds = true ->
-     pyint0 ("0"%char :: "b"%char :: ds) = Some (radix_value 2 ds)) /\
-  (forall hs, hs <> [] -> forallb (digit_ok 16) hs = true ->
-     pyint0 ("0"%char :: "x"%char :: hs) = Some (radix_value 16 hs)).
+  (forall c ds, c = "b"%char \/ c = "B"%char -> ds <> [] -> forallb (digit_ok 2) ds = true ->
+     pyint0 ("0"%char :: c :: ds) = Some (radix_value 2 ds)) /\
+  (forall c hs, c = "x"%char \/ c = "X"%char -> hs <> [] -> forallb (digit_ok 16) hs = true ->
+     pyint0 ("0"%char :: c :: hs) = Some (radix_value 16 hs)).
 (* the characters that reach the branch test of _outcome_to_int *)
 Definition key_chars (s : string) : list ascii := remove_spaces (list_ascii_of_string s).
 
@@ -477,3 +477,60 @@ Definition obs_in_range (p : part) (d : pdata) : Prop :=
       forall idx s, idx < length pubs -> In s (nth idx pubs []) ->
         (from_bytes_big (fst s) < 2 ^ N.of_nat (num_meas_bits (nth (idx mod length (pgroups p)) (pgroups p) dcog)))%N
   end.
+
+(* ------------------------------------------------------------------------------------------ *)
+(* 9. from Pauli letters to (len(pauli_indices), pauli_bitmasks) and lookup                    *)
+(* ------------------------------------------------------------------------------------------ *)
+(* utils/observable_grouping.py: CommutingObservableGroup.__post_init__ and the lookup loop of
+   ObservableCollection.__init__.  A Pauli is one letter per qubit INDEX (0 = I, 1 = X, 2 = Y,
+   3 = Z; position q = qubit q).  WHICH observables share a group and the group's general
+   observable come from the real object (PauliList.group_commuting / most_general_observable are
+   C11's business); the masks and the lookup are recomputed here from the letters, so the
+   reconstruction model is NOT fed the implementation's own pauli_bitmasks / lookup. *)
+Definition letters := list nat.
+
+(* pauli_indices = [i for i, pauli in enumerate(general_observable) if pauli != I] *)
+Fixpoint pauli_indices_from (i : nat) (general : letters) : list nat :=
+  match general with
+  | [] => []
+  | l :: r => if l =? 0 then pauli_indices_from (S i) r else i :: pauli_indices_from (S i) r
+  end.
+Definition pauli_indices_of (general : letters) : list nat := pauli_indices_from 0 general.
+
+(* v = 0 ; for i, j in enumerate(pauli_indices): if pauli[j] != I: v |= 1 << i *)
+Fixpoint bitmask_from (i : nat) (idx : list nat) (member : letters) (v : N) : N :=
+  match idx with
+  | [] => v
+  | j :: r =>
+      bitmask_from (S i) r member
+        (if nth j member 0 =? 0 then v else N.lor v (N.shiftl 1 (N.of_nat i)))
+  end.
+Definition bitmask_of (idx : list nat) (member : letters) : N := bitmask_from 0 idx member 0%N.
+
+(* a group as letters: (general observable, commuting observables) *)
+Definition lgroup := (letters * list letters)%type.
+Definition cog_of_letters (g : lgroup) : cog :=
+  let idx := pauli_indices_of (fst g) in (length idx, map (bitmask_of idx) (snd g)).
+
+Definition letters_eqb (a b : letters) : bool := list_beq Nat.eqb a b.
+
+(* for i, group in enumerate(groups): for j, obs in enumerate(group.commuting_observables):
+       lookup[obs].append((i, j))                 -- the entry of one observable P *)
+Fixpoint lookup_in_group (m n : nat) (members : list letters) (p : letters) : list (nat * nat) :=
+  match members with
+  | [] => []
+  | x :: r => if letters_eqb x p then (m, n) :: lookup_in_group m (S n) r p else lookup_in_group m (S n) r p
+  end.
+Fixpoint lookup_from (m : nat) (groups : list lgroup) (p : letters) : list (nat * nat) :=
+  match groups with
+  | [] => []
+  | g :: r => lookup_in_group m 0 (snd g) p ++ lookup_from (S m) r p
+  end.
+Definition lookup_of (groups : list lgroup) (p : letters) : list (nat * nat) := lookup_from 0 groups p.
+
+(* the partition as the reconstruction sees it, from letters only *)
+Definition part_of_letters (label : nat) (phases : list nat) (groups : list lgroup) (subobs : list letters) : part :=
+  mkPart label phases (map cog_of_letters groups) (map (lookup_of groups) subobs).
+
+(* specification side: the observable `member` acts on qubit q *)
+Definition acts_on (member : letters) (q : nat) : bool := negb (nth q member 0 =? 0).
